@@ -163,6 +163,8 @@ EXPLORE = {
     'pqueue2': ('pqueue', [[_S(1), _S(2)], [_P], [_P, _P]]),
     'device2': ('device', [[_S(1), _S(2)], [_S(3)], [_P, _P], [_I]]),
     'userloop2': ('userloop', [[_S(1), _S(2)], [_P], [_R]]),
+    'echorecv': ('echo', [[_S(1)], [_R]]),
+    'iorecv': ('ioport', [[_S(1)], [_R]]),
 }
 NSHARD = 16
 
@@ -299,9 +301,9 @@ def run(ctx):
     validate_histories(ctx, col2.hist, 'PortTrace: histories of seeded random/PCT schedules')
     # every schedule with at most K preemptions of a few programs on the real ports,
     # explored by re-execution (the implementation itself is the transition system)
-    plan = ([('multi3', 3), ('multi2l', 2), ('multirecv', 2), ('ioport2', 3), ('pqueue2', 3), ('device2', 2), ('userloop2', 3)]
+    plan = ([('multi3', 3), ('multi2l', 2), ('multirecv', 2), ('ioport2', 3), ('pqueue2', 3), ('device2', 2), ('userloop2', 3), ('echorecv', 4), ('iorecv', 3)]
             if thorough else
-            [('multi3', 2), ('multi2l', 1), ('multirecv', 1), ('ioport2', 2), ('pqueue2', 2), ('device2', 1), ('userloop2', 2)])
+            [('multi3', 2), ('multi2l', 1), ('multirecv', 1), ('ioport2', 2), ('pqueue2', 2), ('device2', 1), ('userloop2', 2), ('echorecv', 3), ('iorecv', 2)])
     col3 = Collect(ctx, explore_worker, batch_size=1)
     col3.map([[(name, k, sh, 60000 if thorough else 3000)] for name, k in plan for sh in range(NSHARD)])
     ctx.note('explored_schedules', col3.n)
